@@ -204,6 +204,9 @@ def install(eng):
             if ent and ent[2] is not None:
                 return eng.call_user(UserFn(ent[0], ent[1], ent[2], v), [], {}, st, node)
             flds = st.heap[v.oid].fields if isinstance(v, Ref) else v.fields
+            if v.cls == 'range' and all(k_ in flds for k_ in ('start', 'stop', 'step')):
+                # KRec('range', start=.., stop=.., step=..): a range object given by its three attributes
+                return one(st, v_len(ops.range_view(flds['start'], flds['stop'], flds['step'])))
             if v.cls == 'ndarray' and 'rows' in flds:
                 # KRec('ndarray', rows=..., dtype=...): an array abstracted to the sequence of its rows (ids) and its dtype
                 return one(st, v_len(flds['rows']))
